@@ -23,7 +23,7 @@ UNIT_TIMEOUT = 900  # backstop against a hung unit only; thread-slice subtrees c
 LEVEL = "exploration"
 RULE = (
     "SVC machine (idle -GO-> work[invoke] -> ok/err) x service kind {coroutine function, plain callable, child machine} "
-    "x outcome {return, raise} x {onError declared, not declared} x entry variant {plain, entry raises CANCEL+GO so the "
+    "x outcome {return, raise, coroutine that raises when it is cancelled} x {onError declared, not declared} x entry variant {plain, entry raises CANCEL+GO so the "
     "first result is queued behind a leave/re-enter pair, invoking state compound and entered through a descendant target}; environment scripts = GO at t=0 then all sequences up to the "
     "length bound over {CANCEL, GO, SELF, NOP, STOP} at grid instants straddling the completion time; all schedule "
     "choices (tied timers, ready work before/after a tied timer); judged per activation: service started exactly once "
@@ -56,6 +56,11 @@ def variants() -> List[tuple]:
                     continue
                 for entry in ("plain", "bounce"):
                     out.append((kind, outcome, onerr, entry))
+                if kind == "coro" and outcome == "return":
+                    # the service turns its own cancellation into an exception (failing clean-up): the failure of an
+                    # activation that is over is discarded like its result
+                    out.append((kind, "zombie", onerr, "plain"))
+                    out.append((kind, "zombie", False, "plain"))
                 # the invoking state is COMPOUND and GO targets one of its descendants (entry through an explicit child
                 # path), SELF still targets the state itself
                 out.append((kind, outcome, onerr, "plain", "compound"))
@@ -75,6 +80,14 @@ def make(variant, rec, clock) -> Dict[str, Any]:
 
     async def coro(interp, ctx, ev):
         k = note(ev)
+        if outcome == "zombie":
+            try:
+                await asyncio.sleep(DUR)
+            except asyncio.CancelledError:
+                rec.log.append(("SVCEND", k, clock()))
+                raise ValueError(f"clean-up of call {k} failed")
+            rec.log.append(("SVCEND", k, clock()))
+            return f"r{k}"
         await asyncio.sleep(DUR)
         rec.log.append(("SVCEND", k, clock()))
         if outcome == "raise":
@@ -173,6 +186,9 @@ def scripts(maxlen: int) -> List[List[tuple]]:
 
 def judge(variant, engine, script, log, d) -> List[Tuple[str, str]]:
     kind, outcome, onerr, entry = variant[:4]
+    zombie = outcome == "zombie"
+    if zombie:
+        outcome = "return"   # a call that completes returns; a cancelled call's failure must have no effect at all
     shape = variant[4] if len(variant) > 4 else "atomic"
     bad: List[Tuple[str, str]] = []
     acts: List[Dict[str, Any]] = []          # activations of `work`
@@ -251,6 +267,10 @@ def judge(variant, engine, script, log, d) -> List[Tuple[str, str]]:
     if outcome == "raise" and not onerr and o[2] == "error":
         if not isinstance(d.interp.error, ValueError):
             bad.append(("error-not-recorded", f"{d.interp.error!r}"))
+    if o[2] == "error" and not (outcome == "raise" and not onerr):
+        bad.append(("failed-by-an-activation-that-was-over", f"status error ({d.interp.error!r}) although no current activation failed unhandled"))
+    if zombie and any(e[0] == "OE" for e in log):
+        bad.append(("stale-result-drove-handler", "onError ran for the failure of a cancelled call"))
     # census
     if engine == "async":
         live = {k: len(v) for k, v in d.interp.task_manager._tasks_by_owner.items() if v}
